@@ -11,6 +11,20 @@ sys.path.insert(0, ROOT)
 
 DESIGN_REF = {f"C{i:02d}": f"DESIGN.md §3 C{i:02d}" for i in range(1, 21)}
 TEXT = json.load(open(os.path.join(ROOT, "tools", "manifest_text.json")))
+TECH = {
+    "C01": "bounded-exhaustive enumeration of programs x configurations x set-iteration orders (choice points owned by a seam) on the real code, NumPy reference interpreter as oracle",
+    "C02": "bounded-exhaustive enumeration of trunk/heads programs x configurations on the real code, NumPy reference as oracle",
+    "C05": "bounded-exhaustive enumeration with a differential twin (torch.autograd on an identical graph)",
+    "C06": "explicit-state search over operation histories on the live objects (state = .grad ledger), invariants on every transition",
+    "C07": "exhaustive enumeration of all (rows, chunk size) configurations with sweep observation through hooks",
+    "C12": "bounded-exhaustive enumeration of autograd DAGs against a syntactic reachability model, replayed on twin graphs",
+    "C13": "exhaustive enumeration of call histories with a differential twin driven by torch.autograd, per-segment probes",
+    "C14": "bounded-exhaustive enumeration of transform terms against a typing model",
+    "C16": "fault enumeration: every corrupted-row subset x corruption assignment x configuration against reference models",
+    "C18": "stateless choice-point exploration of every RNG draw schedule (replayed draws) against reference models",
+    "C19": "exhaustive enumeration of call/reset histories on the real stateful object with differential oracles (fresh instance, k=1 reference)",
+    "C20": "fault enumeration: every invalid-argument kind x position x set-iteration order x valid remainder, .grad snapshots",
+}
 
 
 def spec_of(path):
@@ -43,7 +57,7 @@ def main():
             engine="mc-explorer",
             level_claimed=dict(category=spec["level"], text=tx.get("text", spec["rule"]), design_ref=DESIGN_REF[pid]),
             level_note=tx.get("note", "; ".join(spec.get("assumptions", []))),
-            technique=spec.get("technique", "bounded-exhaustive exploration of the real implementation against a reference model"),
+            technique=spec.get("technique") or TECH.get(pid, "bounded-exhaustive enumeration of a finite input/configuration alphabet on the real implementation against an exact reference model"),
         ))
     man = dict(
         version=1,
